@@ -46,6 +46,12 @@ func c08Run(c *vk.Ctx) {
 		keys = append(keys, KeySpec{ID: fmt.Sprintf("k-%d", i), Cipher: cn, Secret: randSecret(r)})
 	}
 	keys = append(keys, RandKeys(r, 4, nil, 0)...)
+	// one secret under all four ciphers, the 16-byte-salt cipher first
+	shared := randSecret(r)
+	for i, cn := range []string{"aes-128-gcm", "aes-192-gcm", "chacha20-ietf-poly1305", "aes-256-gcm"} {
+		keys = append([]KeySpec{{ID: fmt.Sprintf("shared-%d", i), Cipher: cn, Secret: shared}}, keys...)
+	}
+	keys[0], keys[3] = keys[3], keys[0] // aes-128-gcm in front
 	cache := service.NewReplayCache(5000)
 	rigOff := StartTCPRig(keys, TCPRigOpts{Timeout: c06T})
 	rigOn := StartTCPRig(keys, TCPRigOpts{Timeout: c06T, Replay: &cache, Raw: true})
